@@ -3,6 +3,11 @@
 use memterm::parser_listener::ParserListener;
 use memterm::screen::Screen;
 
+thread_local! {
+    /// the `private` argument the dispatch table passed for the call being forwarded (ED, EL, DA)
+    pub static PRIVATE: std::cell::Cell<Option<bool>> = std::cell::Cell::new(None);
+}
+
 pub type O = Option<u32>;
 
 #[derive(Clone, Debug, PartialEq)]
@@ -289,13 +294,13 @@ impl Call {
             CursorUp1(a) => sc.cursor_up1(*a),
             CursorToColumn(a) => sc.cursor_to_column(*a),
             CursorPosition(a, b) => sc.cursor_position(*a, *b),
-            EraseInDisplay(a) => sc.erase_in_display(*a, None),
-            EraseInLine(a) => sc.erase_in_line(*a, None),
+            EraseInDisplay(a) => sc.erase_in_display(*a, PRIVATE.with(|p| p.get())),
+            EraseInLine(a) => sc.erase_in_line(*a, PRIVATE.with(|p| p.get())),
             InsertLines(a) => sc.insert_lines(*a),
             DeleteLines(a) => sc.delete_lines(*a),
             DeleteCharacters(a) => sc.delete_characters(*a),
             EraseCharacters(a) => sc.erase_characters(*a),
-            ReportDeviceAttributes(a) => sc.report_device_attributes(*a, None),
+            ReportDeviceAttributes(a) => sc.report_device_attributes(*a, PRIVATE.with(|p| p.get())),
             CursorToLine(a) => sc.cursor_to_line(*a),
             ClearTabStop(a) => sc.clear_tab_stop(*a),
             SetMode(v, p) => sc.set_mode(v, *p),
